@@ -2,8 +2,10 @@ package scen
 
 import (
 	"context"
+	"encoding/json"
 	"errors"
 	"fmt"
+	"io"
 	"strings"
 	"sync"
 	"sync/atomic"
@@ -164,6 +166,9 @@ func init() {
 			for _, pl := range payloads {
 				ps = append(ps, Param{Name: "http-unary-" + pl, Bound: 0, V: map[string]int{"ws": 0}, S: map[string]string{"kind": "unary", "payload": pl}})
 			}
+			// an HTTP batch in which a notification (and a call) panic next to healthy calls
+			ps = append(ps, Param{Name: "http-batch-string", Bound: 0, V: map[string]int{"ws": 0}, S: map[string]string{"kind": "batch", "payload": "string"}})
+			ps = append(ps, Param{Name: "http-batch-nilerr", Bound: 0, V: map[string]int{"ws": 0}, S: map[string]string{"kind": "batch", "payload": "nilerr"}})
 			return ps
 		},
 		Body: panicBody,
@@ -208,7 +213,13 @@ func panicBody(s *vsched.Sched, p Param) {
 		return true
 	}
 	s.Finish = func() {
-		if kind != "notify" {
+		if kind == "batch" {
+			for _, k := range []string{"ret-boom", "ret-again"} {
+				if v, _ := obs.Get(k); v != "panic-confined: 70=70 71=panic-error 72=72" {
+					s.Violate("C13: HTTP batch with a panicking notification and a panicking call: want results for 70 and 72 and a panic error for 71, got %q", v)
+				}
+			}
+		} else if kind != "notify" {
 			v, ok := obs.Get("ret-boom")
 			if !ok {
 				s.Violate("C13: the panicking call never returned; alive: %s", strings.Join(s.Alive(), " "))
@@ -232,7 +243,7 @@ func panicBody(s *vsched.Sched, p Param) {
 		}
 		if v, ok := obs.Get("ret-again"); !ok {
 			s.Violate("C13: a subsequent call to the panicking method never returned")
-		} else if kind != "notify" && !strings.Contains(strings.ToLower(v), "panic") {
+		} else if kind != "notify" && kind != "batch" && !strings.Contains(strings.ToLower(v), "panic") {
 			s.Violate("C13: a subsequent call to the panicking method behaved differently: %s", v)
 		}
 		if v, ok := obs.Get("ret-H2"); !ok || v != "61/<nil>" {
@@ -252,6 +263,35 @@ func panicBody(s *vsched.Sched, p Param) {
 		case "reverse":
 			v, err := cli.CallRev(context.Background(), payload)
 			return fmt.Sprintf("%s/%v", v, err)
+		case "batch":
+			// raw HTTP batch: [healthy call 70, panicking notification, panicking call 71, healthy call 72]
+			body := fmt.Sprintf(`[{"jsonrpc":"2.0","id":70,"method":"T.Echo","params":[70]},{"jsonrpc":"2.0","method":"T.BoomNote","params":[%q]},{"jsonrpc":"2.0","id":71,"method":"T.Boom","params":[%q]},{"jsonrpc":"2.0","id":72,"method":"T.Echo","params":[72]}]`, payload, payload)
+			resp, err := w.HC.Post("http://"+Addr+"/rpc", "application/json", strings.NewReader(body))
+			if err != nil {
+				return "batch-post-failed: " + err.Error()
+			}
+			defer resp.Body.Close()
+			raw, _ := io.ReadAll(resp.Body)
+			var els []struct {
+				ID     int              `json:"id"`
+				Result *int             `json:"result"`
+				Error  *json.RawMessage `json:"error"`
+			}
+			if err := json.Unmarshal(raw, &els); err != nil {
+				return fmt.Sprintf("batch reply is not a JSON array (%v): %.200s", err, raw)
+			}
+			out := "panic-confined:"
+			for _, e := range els {
+				switch {
+				case e.Result != nil:
+					out += fmt.Sprintf(" %d=%d", e.ID, *e.Result)
+				case e.Error != nil && strings.Contains(strings.ToLower(string(*e.Error)), "panic"):
+					out += fmt.Sprintf(" %d=panic-error", e.ID)
+				default:
+					out += fmt.Sprintf(" %d=?", e.ID)
+				}
+			}
+			return out
 		case "cancelled":
 			// the caller cancels while the method runs; the method panics afterwards
 			ctx, cancel := context.WithCancel(context.Background())
